@@ -9,6 +9,36 @@ P = {
  "C01": ("exploration", "property-based testing (proptest): generated configurations x entry sets, round-trip oracle against the inserted list",
          "Every generated (codec, level, block size, interval, index levels) x entry set is written and read back; count, codec, version, forward scan, backward scan, first and last are compared with the inserted list. Sampled, not exhaustive: a round trip over an unbounded input space can only be explored.",
          "Trusted: proptest, the five compression crates, std::io::Cursor. Compression levels are generated inside each codec's documented range; zstd levels above 12 only with small files.", "5 C01"),
+ "C02": ("exploration", "property-based testing (proptest) with per-file exhaustive probe alphabet; oracle = ceiling/floor/exact of a sorted-vector reference model",
+         "For files up to 150 entries every key-order equivalence class of probes (each key, each gap, before-first, after-last) is sought with GE/LE/EQ on a fresh and on a reset cursor and compared with the model; larger files use 300 sampled classes. The files themselves are sampled.",
+         "Trusted: the reference model (partition_point on a sorted Vec). Probe classes are complete with respect to byte-string order, which is all the code compares.", "5 C02"),
+ "C03": ("exploration", "stateful / model-based testing: exhaustive breadth-first exploration of reachable cursor states per generated file + random operation histories, judged by a position-machine model",
+         "(a) For each generated small deep file all reachable (cursor fingerprint, model position) states x all operations of a complete alphabet are executed and compared with the model (BFS to fixpoint, shortest counterexample histories); clone independence is checked on every transition. (b) 200-operation run-biased histories on larger files. Exhaustive per explored file only.",
+         "Needs hook H3 (read-only fingerprint) for (a); (b) is hook-free. Relative moves after a None are executed but not judged, as the property leaves them unspecified.", "5 C03, 6.1"),
+ "C04": ("exploration", "property-based testing (proptest): generated files x bound pairs, oracle = filter over the reference model (both directions)",
+         "Forward and reverse range iterators are compared with a model filter for all 9 bound-kind pairs over independent probes, with dedicated generators for equal, inverted, adjacent, stored, absent and out-of-span bounds.",
+         "Trusted: the model filter. Iteration is compared up to the iterator's first None, as the property states.", "5 C04"),
+ "C05": ("exploration", "property-based testing (proptest): generated files x prefixes, oracle = starts_with filter over the reference model (both directions)",
+         "Forward and reverse prefix iterators are compared with a starts_with filter; generators force empty, all-FF, FF-terminated prefixes and prefixes whose successor string is itself a stored key.",
+         "Trusted: the model filter; key generators concentrate on a five-letter alphabet {00,01,7f,fe,ff} to make prefix relations dense.", "5 C05"),
+ "C09": ("exploration", "differential testing against an independent format decoder and the frozen grenad 0.4.7 (both directions), inputs from proptest generators",
+         "Each generated file is decoded by a decoder written from the format description (shares no code with the tree) with every structural check on, read by grenad 0.4.7, and the same entries written by 0.4.7 are read by the current reader (scans + seek alphabet).",
+         "Trusted: snap, flate2, lz4_flex, zstd for decompression; grenad 0.4.7 as published. 0.4.7's writer is not driven with index_levels=255.", "5 C09, 4.3"),
+ "C10": ("exploration", "property-based testing (proptest): metamorphic V2->V1 re-encoding by an independent trailer encoder; oracle = reference model and the V2 original",
+         "Single-level files are re-encoded with a 21-byte V1 trailer built independently; version/count/codec, both scans, the seek alphabet, ranges and prefixes must equal the model and the answers of the V2 original.",
+         "V1 files are synthesised (no historical V1 writer is available offline); the block format is identical in both versions.", "5 C10"),
+ "C13": ("fault_enumeration", "exhaustive crash-point (truncation) and single-byte trailer corruption enumeration per generated file + generated structured byte strings; oracle = independent trailer predicate",
+         "For every generated finished file ALL truncation lengths and ALL 255 alternative values of each trailer byte are opened; plus structured synthetic strings and raw bytes. Reader::new must succeed iff an independent predicate finds a complete trailer, never panic, and report the parsed fields. Enumeration is complete per file; files are sampled.",
+         "Crash model: a crash leaves a prefix of the finished byte stream (any length). Trusted: the independent predicate in fmtdec::parse_trailer.", "5 C13"),
+ "C14": ("exploration", "exhaustive enumeration of the 2^32 length domain (thorough) / boundary windows + strided sweep (quick) against an independent LEB128 codec; boundary-length entries round-tripped through the API",
+         "thorough enumerates every u32 length through the real codec (hook H2) and sets exhaustive=true; quick covers every value within 2^16 of each framing boundary plus a seed-shifted stride-251 sweep. API level: all 121 pairings of boundary key/value lengths up to 2^21+1 (2^28+-1 in thorough) through Writer, Reader and the independent decoder.",
+         "API-level lengths above 2^28+1 are not materialised. Hook H2 only re-exports the two codec functions.", "5 C14"),
+ "C15": ("exploration", "property-based testing (proptest): generated files, validity predicate over the block table produced by the independent decoder",
+         "For every emitted data block and every index block at depth >= 2 of every generated file: without its last entry (and the offset slot it opened) the block is below B, and a block that is not the last of its level reached B. Entry sizes are generated around B/3, B/2, B-1, B, 3B.",
+         "Block sizes are measured on the decoder's uncompressed blocks; the lower inequality is the reading 'emitted as soon as it reaches B' (DESIGN 6.2).", "5 C15, 6.2"),
+ "C18": ("exploration", "property-based testing (proptest): perturbed insert sequences under catch_unwind; oracle = (panic only on a non-ascending prefix) or (every block sorted per the independent decoder)",
+         "Sorted lists are perturbed (swap, duplicate, equal keys, reversed runs, and a non-increasing key placed right after a block emission); either the writer panics at or after the first out-of-order insert, or the independent decoder finds every data and index block strictly ascending.",
+         "A panic before the first out-of-order insert, or on sorted input, is reported as a violation too.", "5 C18"),
 }
 
 NOT_BUILT_REASON = "check not built yet in this snapshot; the design in DESIGN.md section 5 applies and the check is being added"
